@@ -53,6 +53,9 @@ type Log struct {
 type Fault struct {
 	Table string `json:"table"` // block leaf l1root l1rht rroot rrht verify init
 	K     int    `json:"k"`     // the statement that would be the k-th successful write (0-based) to that table in this ProcessBlock fails
+	// RB: the failing statement raises ROLLBACK instead of ABORT (SQLite rolls the transaction back itself; db.Tx.Rollback then
+	// returns an error before the rollback callbacks): same database as after an ordinary fault, in-memory state NOT undone
+	RB bool `json:"rb,omitempty"`
 }
 
 type Op struct {
@@ -306,13 +309,17 @@ func installFault(d *sql.DB, f *Fault) {
 	if !ok {
 		panic("bad fault table " + f.Table)
 	}
+	how := "ABORT"
+	if f.RB {
+		how = "ROLLBACK"
+	}
 	stmts := []string{
 		`DROP TABLE IF EXISTS verif_cnt`,
 		`CREATE TABLE verif_cnt (n INTEGER)`,
 		`INSERT INTO verif_cnt VALUES (0)`,
 		fmt.Sprintf(`CREATE TRIGGER verif_fault BEFORE INSERT ON %s BEGIN
-			SELECT RAISE(ABORT, 'verif fault') WHERE (SELECT n FROM verif_cnt) = %d;
-			UPDATE verif_cnt SET n = n + 1; END`, tbl, f.K),
+			SELECT RAISE(%s, 'verif fault') WHERE (SELECT n FROM verif_cnt) = %d;
+			UPDATE verif_cnt SET n = n + 1; END`, tbl, how, f.K),
 	}
 	for _, s := range stmts {
 		if _, err := d.Exec(s); err != nil {
